@@ -4,11 +4,11 @@
 patch=$1; shift
 cd /repo || exit 2
 if ! git diff --quiet; then echo "/repo has uncommitted changes"; exit 2; fi
-if ! git apply --3way "$patch" 2>/tmp/seedapply.err && ! git apply "$patch" 2>>/tmp/seedapply.err; then echo "patch does not apply"; cat /tmp/seedapply.err; git checkout -q -- . ; git reset -q; exit 3; fi
+if ! git apply --3way "$patch" 2>/tmp/seedapply.err && ! git apply "$patch" 2>>/tmp/seedapply.err; then echo "patch does not apply"; cat /tmp/seedapply.err; git reset -q --hard HEAD; exit 3; fi
 git reset -q
-trap 'git -C /repo checkout -q -- . ; git -C /repo clean -fdq -e verif_export.go 2>/dev/null' EXIT INT TERM
+trap 'git -C /repo reset -q --hard HEAD; git -C /repo clean -fdq 2>/dev/null' EXIT INT TERM
 for p in "$@"; do
   (cd /verif && VERIF_SEED=${VERIF_SEED:-1} ./check $p --tier ${TIER:-quick} 2>&1 | tail -4; echo "exit($p)=${PIPESTATUS[0]}")
 done
-git checkout -q -- . && git clean -fdq -e verif_export.go 2>/dev/null
+git reset -q --hard HEAD; git clean -fdq 2>/dev/null
 git status --short | head
